@@ -254,3 +254,18 @@ Theorem C12_release_handover_reachable :
       (forall g, In g (pq_objs (lpq (getl s l))) -> woken s g = false).
 Proof. exact release_handover_reach. Qed.
 Print Assumptions C12_release_handover_reachable.
+
+(* The domain is implied by a syntactic condition (Sched/LockStatic.v, Sched/WaitStatic.v), as
+   for C13: every action is [ASpawn how c] with c a program without set_result/set_exception
+   calls ([nosr]) and without [Spawn SEager] anywhere, continuations included ([noeag]), or
+   [ADo op] with op none of OSetResult / OSetExc / OAcquire / ORelease / OCondWait / OSetPrio,
+   or a step / clock action.  Then every state of the run is [reachable_ne], hence satisfies
+   all the theorems above and C11_graph_consistent, C14_lock_on_exit_reachable.  Harness
+   scripts without eager spawn denote such programs ([denote_task_noeag], [denote_task_nosr]). *)
+From Asynkit Require Import Sched.LockStatic Sched.WaitStatic.
+Theorem C12_domain_static :
+  forall p fa dr lks cds nev acts,
+    Forall act_static acts -> Forall act_static_ne acts ->
+    reachable_ne (fold_left do_action acts (init_st p fa dr lks cds nev)).
+Proof. exact static_reachable_ne. Qed.
+Print Assumptions C12_domain_static.
